@@ -4,3 +4,7 @@ open GoMail.Props.C03
 #print axioms delivered_requires_complete_render
 #print axioms no_error_means_delivered
 #print axioms eod_only_behind_complete_content
+#print axioms delivered_iff_acknowledged
+#print axioms acknowledged_are_the_delivered
+#print axioms acknowledged_iff_delivered
+#print axioms committed_at_most_once
